@@ -357,6 +357,58 @@ def with_ambient(sub: "Sub", case: Any, rate: int = 6):
 
 
 # ----------------------------------------------------------------------------------------------
+# several cases at once, one thread each
+# ----------------------------------------------------------------------------------------------
+
+
+def threaded(check_fn: Callable) -> Callable:
+    """check for a case {"cases": [...]}: every listed case is checked by `check_fn` in a thread of its own, all started together under a
+    short switch interval. Only for checks whose verdict does not depend on the order in which random numbers are consumed (the oracle is
+    a function of what the library returned). The interleaving belongs to the interpreter: it is sampled, not enumerated; a violation
+    seen in any thread is a violation (the object that contradicted the oracle was really handed out)."""
+    import threading
+
+    def run(case: dict):
+        cases = case["cases"]
+        errs: list = []
+        infos: list = [None] * len(cases)
+        start = threading.Barrier(len(cases))
+
+        def work(k):
+            try:
+                start.wait()
+                for _ in range(case.get("repeat", 1)):
+                    infos[k] = check_fn(cases[k])
+            except BaseException as e:  # noqa: BLE001
+                errs.append(e)
+
+        old = sys.getswitchinterval()
+        sys.setswitchinterval(1e-6)
+        try:
+            ths = [threading.Thread(target=work, args=(k,)) for k in range(len(cases))]
+            for t in ths:
+                t.start()
+            for t in ths:
+                t.join()
+        finally:
+            sys.setswitchinterval(old)
+        for kind in (Violation, Exception, Discard, BaseException):
+            for e in errs:
+                if isinstance(e, kind):
+                    raise e
+        labels = sorted({lab for i in infos if i for lab in i.get("labels", ())})[:6]
+        return {"nt": len(cases) >= 2 and any(i and i.get("nt") for i in infos), "labels": [f"threads:{len(cases)}"] + labels}
+
+    return run
+
+
+def threaded_strategy(inner: Callable, lo: int = 2, hi: int = 4):
+    from hypothesis import strategies as st
+
+    return lambda: st.fixed_dictionaries({"cases": st.lists(inner(), min_size=lo, max_size=hi), "repeat": st.sampled_from([1, 2, 3])})
+
+
+# ----------------------------------------------------------------------------------------------
 # workers
 # ----------------------------------------------------------------------------------------------
 
